@@ -576,7 +576,15 @@ func (h *hist) doSwap(sent, recv string, amt *big.Int) {
 func (h *hist) opParams() {
 	w, rng := h.w, h.rng
 	p := w.app.MarginKeeper.GetParams(w.ctx)
-	switch rng.Intn(12) {
+	switch rng.Intn(15) {
+	case 12, 13: // the administrator closes everything: the real MsgAdminCloseAll raises the safety factor to 100
+		// (and zeroes the force-close fund percentage unless the fund cut is asked for); the next epoch hook
+		// then liquidates positions that still have value — collateral and fund share leave the module
+		h.adminCloseAll(rng.Bool())
+		return
+	case 14:
+		p.SafetyFactor = h.decChoice("2", "10", "100", "1.5")
+		p.ForceCloseFundPercentage = h.decChoice("0.1", "0.5", "0")
 	case 8: // the optional fund address fields left out of the message: stored empty, nothing validates them
 		p.IncrementalInterestPaymentFundAddress = ""
 	case 9:
@@ -613,6 +621,19 @@ func (h *hist) opParams() {
 		p.ForceCloseFundPercentage = h.decChoice("0.1", "0", "1")
 	}
 	h.setParams(&p)
+}
+
+func (h *hist) adminCloseAll(takeFund bool) {
+	msg := &margintypes.MsgAdminCloseAll{Signer: h.adm.String(), TakeMarginFund: takeFund}
+	if err := msg.ValidateBasic(); err != nil {
+		panic(err)
+	}
+	h.txPlain(func(ctx sdk.Context) error {
+		_, err := h.w.msrv.AdminCloseAll(sdk.WrapSDKContext(ctx), msg)
+		return err
+	})
+	h.emitParams()
+	h.out.Hist["admincloseall"]++
 }
 
 func (h *hist) setParams(p *margintypes.Params) {
@@ -770,6 +791,37 @@ func (h *hist) directed(kind int) {
 		for !h.opBlock() {
 		}
 		for !h.opBlock() {
+		}
+	case 10: // the hook liquidates positions that still have value: several healthy positions per pool on both
+		// collateral sides, then MsgAdminCloseAll with the fund cut (safety factor 100) — the collateral left
+		// after the debt goes back to the traders and the fund takes its share, out of the clp module account;
+		// then again with positions between 1 and a safety factor of 2 and 10 set by MsgUpdateParams
+		p.LeverageMax = sdk.NewDec(5)
+		h.setParams(&p)
+		openAll := func() {
+			for i, d := range []string{"cusdc", "ceth"} {
+				h.doOpen(h.traders[i%3], "rowan", d, amt(d, true), margintypes.Position_LONG, sdk.NewDec(2))
+				h.doOpen(h.traders[(i+1)%3], d, "rowan", amt(d, false), margintypes.Position_LONG, sdk.MustNewDecFromStr("1.5"))
+				h.doOpen(h.traders[(i+2)%3], "rowan", d, new(big.Int).Quo(amt(d, true), big.NewInt(7)), margintypes.Position_LONG, sdk.NewDec(3))
+				h.doOpen(h.traders[i%3], d, "rowan", new(big.Int).Quo(amt(d, false), big.NewInt(3)), margintypes.Position_LONG, sdk.NewDec(4))
+			}
+		}
+		openAll()
+		h.adminCloseAll(true)
+		for !h.opBlock() {
+		}
+		h.opBlock()
+		for _, v := range []string{"2", "10"} {
+			p = k.GetParams(w.ctx)
+			p.SafetyFactor = sdk.MustNewDecFromStr("1.05")
+			p.ForceCloseFundPercentage = sdk.MustNewDecFromStr("0.1")
+			h.setParams(&p)
+			openAll()
+			p.SafetyFactor = sdk.MustNewDecFromStr(v)
+			h.setParams(&p)
+			for !h.opBlock() {
+			}
+			h.opBlock()
 		}
 	case 5: // every pool at once: positions on both sides of every pool, two epoch boundaries, everything closed
 		// again — a lookup of "the positions of pool X" that also returns those of a pool whose symbol
@@ -934,7 +986,7 @@ func init() {
 			}
 			h := &hist{w: w, out: out, rng: rng, fixedPools: nhist == 4, evenPools: nhist == 9}
 			h.setup()
-			if nhist < 10 {
+			if nhist < 11 {
 				h.directed(nhist)
 				nhist++
 				continue
